@@ -1,11 +1,13 @@
 #!/bin/bash
-# tools/keep_preserving.sh Cxx ... : triage the three behaviour-preserving changes an agent left in /tmp/wtP_Cxx/_out/p{1,2,3}
+# tools/keep_preserving.sh [-r P|Q] Cxx ... : triage the three behaviour-preserving changes an agent left in /tmp/wt<R>_Cxx/_out/<r>{1,2,3}
+R=P; if [ "$1" = "-r" ]; then R=$2; shift 2; fi
+r=$(echo $R | tr 'A-Z' 'a-z')
 cd "$(dirname "$0")/.."
 for p in "$@"; do
   for i in 1 2 3; do
-    src=/tmp/wtP_$p/_out/p$i
+    src=/tmp/wt${R}_$p/_out/$r$i
     [ -f $src/patch.diff ] || { echo "MISSING $src"; continue; }
-    tools/try_preserving.py $src $p-p$i $p --keep 2>&1 | tail -1 | python3 -c "
+    tools/try_preserving.py $src $p-$r$i $p --keep 2>&1 | tail -1 | python3 -c "
 import json,sys
 r=json.loads(sys.stdin.read()); print(r['id'], 'valid' if r['valid'] else 'INVALID %s' % {k:r.get(k) for k in ('applies','suite','demo_clean_rc','demo_patched_rc','demo_patched_tail')}, 'checks', {k:v['rc'] for k,v in r['checks'].items()}, 'ALARMS' if r['alarms'] else '', {k:v['signatures'][:2] for k,v in r['checks'].items() if v['rc']})"
   done
